@@ -62,11 +62,6 @@ def dyadic8(x):
 # those names, uid, base, ...) may influence the result. Indices are taken modulo the current size.
 FEATURE_NAMES = ["abs_curv", "ds", "speed", "heading", "s", "curv"]
 
-# finding (new in this pass, see findings/C05.json): in spatial mode a sample taken on a leg of positive 2D length whose two fixes carry
-# the SAME timestamp t is stamped wbwd*t + wfwd*t; the two weights do not sum to 1 exactly in floats, the result can be one ulp below t and
-# readUnixTime truncates it to the millisecond before: consecutive output stamps ..., m, m-1, m, ... (a decrease of 1 ms).
-FINDING_MS = "spatial-equal-stamp-leg-ms-decrease"
-
 
 def feat_values(seed, n):
     return [((seed * 7919 + i * 104729) % 2000) / 8.0 - 50.0 for i in range(n)]
@@ -110,7 +105,9 @@ class P(Prop):
         (M, "TV.C05.spatial_on_polyline", "T3: the sample at abscissa s in (0,L] lies on the unique leg r with S[r-1] < s <= S[r], of positive length, at fraction f in (0,1], at curvilinear abscissa s; x, y, z, t interpolated with f"),
         (M, "TV.C05.spatial_pause", "T3d: pauses (repeated positions): the leg used ends at the FIRST fix at or beyond s (a sample on a pause is the fix where the pause begins, with its z and t) and starts at the LAST fix of its start abscissa (a sample beyond a pause is interpolated in z and t from the fix that ends the pause); never a zero-length leg"),
         (M, "TV.C05.spatial_time_monotone", "T4: with non-decreasing stamps the timestamps of the spatially resampled track never decrease"),
-        (M, "TV.C05.spatial_equal_stamp_leg", "T3e: a spatial sample taken on a leg whose two fixes carry the same timestamp is stamped with exactly that timestamp (exact arithmetic; in floats wbwd*t + wfwd*t can be one ulp below t: finding spatial-equal-stamp-leg-ms-decrease)"),
+        (M, "TV.C05.spatial_equal_stamp_leg", "T3e: a spatial sample taken on a leg whose two fixes carry the same timestamp is stamped with exactly that timestamp (exact arithmetic; in any arithmetic since the fix commit 20ed89f, see T4')"),
+        (M, "TV.C05.spatial_clamp_exact", "T4c: the clamp T = min(max(T, t_bwd), t_fwd) of the fix commit 20ed89f is a no-op in exact arithmetic (stamps t_bwd <= t_fwd): the weighted mean already lies between the two stamps and equals the linear interpolation, so T3a/T3/T3d/T3e/T4/S2 describe the repaired code"),
+        (M, "TV.C05.spatial_time_clamped", "T4': WITHOUT exact arithmetic (any linearly ordered scalar type with four arbitrary operations, e.g. rounding doubles): with stamps that never decrease every time handed to readUnixTime by __resampleSpatial lies between the stamps of the two fixes of its leg, the legs never go backwards, outputs on different legs are in chronological order, an output on a leg travelled in no time carries exactly its stamp, none is earlier than the first fix; only two samples of one leg of positive duration are not ordered by the clamp alone (T4, exact)"),
         (M, "TV.C05.spatial_stamps_monotone", "S2: spatial mode, stamps that never decrease (repeats allowed), not before 1970: the outputs carry the calendar stamps readUnixMs(m) with m = floor(1000 t) the millisecond of the interpolated time; these m never decrease along the output and each stamp is well formed and reads back as m ms: the stamps actually carried never decrease (exact arithmetic)"),
         (M, "TV.C05.spatial_legs", "T3b: the accumulated leg lengths are the non-negative 2D distances (square = dx^2+dy^2) for any sqrt meeting math.sqrt's contract"),
         (M, "TV.C05.spatial_distance_along_leg", "T3c: the point at fraction f of a leg is at planimetric distance f|ab| from its start, so with T3 the sample k lies at distance k ds along the original 2D polyline"),
@@ -124,9 +121,9 @@ class P(Prop):
     partial = []
     open_statements = [
         "IEEE rounding is outside the theorems (ordered field): float overshoot int(L/ds)*ds > L (repaired by the fix commits 6fb91a5 + 3031a33: bounded scan and abscissa clamped to L, both mirrored by the model and proved to be no-ops in exact arithmetic; their effect in floats is covered by the Float-model correspondence and the oracle), loss of the (1+1e-8) guard on epoch-scale stamps and the truncation int((t - int(t))*1000) of the millisecond field to m-1 for some whole-millisecond instants are only sampled by the transfer check (1 ms tolerance)",
-        "spatial mode: the stamp of an output is readUnixTime of an interpolated, generally non-integral number of milliseconds; the model stamps with floor(1000 t) by definition (stampOf); S2 proves that these stamps never decrease and read back as floor(1000 t) ms in exact arithmetic; in floats the truncation int((t - int(t))*1000) is only sampled (1 ms tolerance), and on a leg of positive length travelled in no time (two fixes sharing a stamp t) wbwd*t + wfwd*t can fall one ulp below t, so that consecutive output stamps read m, m-1, m (finding spatial-equal-stamp-leg-ms-decrease, not repaired)",
+        "spatial mode: the stamp of an output is readUnixTime of an interpolated, generally non-integral number of milliseconds; the model stamps with floor(1000 t) by definition (stampOf); S2 proves that these stamps never decrease and read back as floor(1000 t) ms in exact arithmetic; in floats the truncation int((t - int(t))*1000) is only sampled (1 ms tolerance); the former finding spatial-equal-stamp-leg-ms-decrease (on a leg travelled in no time wbwd*t + wfwd*t fell one ulp below t and the output stamps read m, m-1, m) is repaired by 20ed89f and T4' proves, for any arithmetic, that times on different legs or on a no-time leg never decrease; the order of two samples of ONE leg of positive duration in floats (monotonicity of the rounded weighted mean) is only sampled by the oracle",
     ]
-    modelled = ("tracklib/algo/interpolation.py prepareTimeSampling (number / list / Track / other argument), __resampleTemporal, __resampleSpatial, "
+    modelled = ("tracklib/algo/interpolation.py prepareTimeSampling (number / list / Track / other argument), __resampleTemporal, __resampleSpatial (bounded scan, clamped abscissa, interpolated time clamped to the two stamps of its leg -- 20ed89f), "
                 "the ALGO_LINEAR branches of the dispatcher resample() (including that it leaves the feature table untouched), sample(), synchronize() "
                 "(common range with Python's max/min, argsort as a sort of values, the de-duplication loop as written); tracklib/core/track.py Track.resample "
                 "(`delta is None` -> npts/factor with the (1+1e-8) guard, SRID read, dispatcher call, reset of the feature table), Track.__floordiv__, __pow__, "
@@ -161,22 +158,6 @@ class P(Prop):
         import tracklib.algo.interpolation as I
         self.Obs, self.ENU, self.T, self.Track, self.I, self.Coll = Obs, ENUCoords, ObsTime, Track, I, TrackCollection
         assert I.MODE_SPATIAL == 1 and I.MODE_TEMPORAL == 2 and I.ALGO_LINEAR == 1
-        self._listed = None
-
-    def listed(self, cls):
-        """is the finding class listed (status `finding`) in known_findings.json? Streams that reach a finding are generated only once it is
-        listed (until then the check must stay silent on the unchanged tree; the witness waits in findings/C05.json)"""
-        if getattr(self, "_listed", None) is None:
-            import json, os
-            self._listed = set()
-            path = os.path.join(os.path.dirname(os.path.dirname(os.path.dirname(os.path.abspath(__file__)))), "known_findings.json")
-            try:
-                with open(path) as fh:
-                    self._listed = {e.get("class") for e in json.load(fh).get("entries", [])
-                                    if e.get("property") == "C05" and e.get("status") == "finding"}
-            except Exception:
-                pass
-        return cls in self._listed
 
     # ------------------------------------------------------------------ generators
     def exhaustive_scopes(self, tier):
@@ -533,10 +514,7 @@ class P(Prop):
         if c == 6:
             if rng.random() < 0.5:
                 return self.mk_case(pre + "pow", pts, 2, None, rng.choice([n, 2 * n, n // 2, 16, 17]), 1, via="pow")
-            mode = rng.choice([1, 2])
-            if mode == 1 and tpat != "strict" and ppat != "twin" and not self.listed(FINDING_MS):
-                pts = self.long_track(rng, n, lattice, tpat, "twin")
-            return self.mk_case(pre + "npts", pts, mode, None, rng.choice([None, n, 2 * n + 1, 17]), rng.choice([1, 2]))
+            return self.mk_case(pre + "npts", pts, rng.choice([1, 2]), None, rng.choice([None, n, 2 * n + 1, 17]), rng.choice([1, 2]))
         if c == 7:      # synchronize with another long track whose range overlaps
             m = rng.choice([17, 18, 24, 40])
             other = self.long_track(rng, m, lattice, rng.choice(self.TPATS), rng.choice(self.PPATS), base=pts[rng.randrange(n)][3])
@@ -546,8 +524,6 @@ class P(Prop):
             other = self.long_track(rng, m, lattice, rng.choice(self.TPATS), rng.choice(self.PPATS), base=pts[rng.randrange(n)][3])
             return self.mk_case(pre + "collfloordiv", pts, 2, {"track": self.every_leg_instants(rng, pts, g)}, via="collfloordiv", others=[other])
         # spatial: a step of about half the mean leg (so that every leg of positive length is visited), or a dividing one
-        if tpat != "strict" and ppat != "twin" and not self.listed(FINDING_MS):
-            pts = self.long_track(rng, n, lattice, tpat, "twin")      # (fixes sharing a stamp share their 2D position: see FINDING_MS)
         L = self.len2d(pts)
         if L == 0:
             return self.mk_case(pre + "spatial-num", pts, 1, {"num": 1.0})
@@ -579,7 +555,7 @@ class P(Prop):
                     pts = zig(secs, twin)
                     inst = sorted(set([pts[i][3] + 250 for i in range(n - 1) if pts[i + 1][3] > pts[i][3]] + [pts[d][3]]))
                     out.append(self.mk_case("x-long-onedup-temporal", pts, 2, {"list": inst}))
-                    if (d % 3 == 0 or tier != "quick") and (twin is not None or self.listed(FINDING_MS)):
+                    if d % 3 != 1 or tier != "quick":
                         out.append(self.mk_case("x-long-onedup-spatial", pts, 1, {"num": 2.5}))
         for n in (range(17, 41) if tier == "quick" else range(17, 101)):
             pts = zig([i // 2 for i in range(n)])
@@ -708,12 +684,7 @@ class P(Prop):
                 if len(q) >= 2:
                     q[rng.randrange(1, len(q))][3] = q[0][3] if len(q) == 2 else q[1][3]
                     q.sort(key=lambda p: p[3])
-                mode = rng.choice([1, 2])
-                if mode == 1 and not self.listed(FINDING_MS):
-                    for a, b in zip(q, q[1:]):
-                        if a[3] == b[3]:
-                            b[0], b[1] = a[0], a[1]         # (fixes sharing a stamp share their 2D position: see FINDING_MS)
-                out.append(self.mk_case("edge-dupstamp", q, mode, {"num": rng.choice([0.5, 1.0, 2.0])}))
+                out.append(self.mk_case("edge-dupstamp", q, rng.choice([1, 2]), {"num": rng.choice([0.5, 1.0, 2.0])}))
             elif c == 5:
                 out.append(self.mk_case("edge-one-fix", pts[:1], rng.choice([1, 2]), rng.choice([{"num": 1.0}, None]), None, 2))
             else:
@@ -1415,29 +1386,7 @@ class P(Prop):
         return None
 
     def classify(self, case, impl_out, msg):
-        """FINDING_MS: spatial mode; the ONLY failure is that output stamps decrease, every decrease is exactly 1 ms, from m to m-1, where m is
-        the common (whole-millisecond) stamp of two consecutive fixes at different 2D positions -- samples of a leg travelled in no time"""
-        if not msg or "spatial resampling: timestamps decrease" not in msg or not isinstance(impl_out, dict) or "err" in impl_out:
-            return None
-        subs = self.subcases(case)
-        outs = impl_out["tracks"] if "tracks" in impl_out else [impl_out]
-        if len(subs) != len(outs):
-            return None
-        hit = False
-        for (_, sc), o in zip(subs, outs):
-            m = self.spec_one(sc, o)
-            if m is None:
-                continue
-            if not m.startswith("spatial resampling: timestamps decrease") or sc["mode"] != 1:
-                return None
-            pts = sc["pts"]
-            M = {a[3] for a, b in zip(pts, pts[1:]) if a[3] == b[3] and a[:2] != b[:2]}
-            st = [g[3] for g in o["pts"]]
-            for a, b in zip(st, st[1:]):
-                if b < a and not (a - b == 1 and a in M):
-                    return None
-            hit = True
-        return FINDING_MS if hit else None
+        return None
 
     # ------------------------------------------------------------------ shrinking / search
     def shrink(self, case):
